@@ -16,6 +16,7 @@
 #include <sys/mman.h>
 #include <unistd.h>
 
+#include <locale>
 #include <map>
 #include <string>
 #include <typeinfo>
@@ -31,6 +32,29 @@ inline void poison_errno() {
   static const int vals[] = {ERANGE, EILSEQ, EINVAL, 0, ERANGE, EDOM, ENOENT, ERANGE, EOVERFLOW, 0, EINTR, EAGAIN};
   static thread_local unsigned k = 0;
   errno = vals[(k++) % (sizeof(vals) / sizeof(vals[0]))];
+}
+
+// Locale poisoning: a hostile *global C++ locale* (digit grouping "1,234,567", decimal comma) is installed at
+// start-up.  It is an unnamed locale built from a custom numpunct facet, so the C locale (printf/strtod family) is
+// untouched.  phosg formats numbers with the printf family and std::to_string, which ignore the C++ locale; code that
+// starts formatting numbers through an iostream (a plausible "cleanup") silently picks the global locale up and emits
+// "65,535" - which the value oracles then see.  Harness code must not format numbers through iostreams either.
+struct HostileNumpunct : std::numpunct<char> {
+  char do_thousands_sep() const override { return ','; }
+  std::string do_grouping() const override { return "\3"; }
+  char do_decimal_point() const override { return ','; }
+};
+struct HostileWNumpunct : std::numpunct<wchar_t> {
+  wchar_t do_thousands_sep() const override { return L','; }
+  std::string do_grouping() const override { return "\3"; }
+  wchar_t do_decimal_point() const override { return L','; }
+};
+inline void poison_locale() {
+  static bool done = false;
+  if (done || getenv("VERIF_NO_LOCALE_POISON")) return;
+  done = true;
+  std::locale l(std::locale(std::locale::classic(), new HostileNumpunct), new HostileWNumpunct);
+  std::locale::global(l);
 }
 
 struct Rng {
@@ -270,6 +294,7 @@ inline Ctx& init(int argc, char** argv) {
   }
   if (c.crumb_buf) c.crumb("(started)");
   setvbuf(stderr, nullptr, _IOLBF, 0);
+  poison_locale();
   return c;
 }
 
